@@ -119,18 +119,20 @@ void constructCommon(ModelSignature model,
     if (!filename.empty()){ // recover from an existing checkpoint
         TasmanianSparseGrid original_grid(grid); // a failed read leaves the grid empty or partially read
         std::ifstream infile(filename, std::ios::binary);
+        bool has_main = infile.good(); // an interrupted run always leaves a main file behind, possibly a corrupt one
         try{ // attempt to recover from filename
-            if (!infile.good()) throw std::runtime_error("missing main checkpoint");
+            if (!has_main) throw std::runtime_error("missing main checkpoint");
             grid.read(infile, mode_binary);
             complete.read(infile);
-        }catch(std::runtime_error &){
-            // main file is missing or is corrupt, try the older version
+        }catch(std::exception &){
+            // the main file is corrupt, i.e., the crash came while it was being rewritten, recover from the older version
+            // if the main file is missing, then no run has been interrupted and an old file can only be a leftover of an earlier run
             std::ifstream oldfile(filename_old, std::ios::binary);
             try{
-                if (!oldfile.good()) throw std::runtime_error("missing main checkpoint");
+                if (!has_main || !oldfile.good()) throw std::runtime_error("missing main checkpoint");
                 grid.read(oldfile, mode_binary);
                 complete.read(oldfile);
-            }catch(std::runtime_error &){
+            }catch(std::exception &){
                 // nothing could be recovered, start over from the current grid
                 grid = std::move(original_grid);
             }
@@ -148,7 +150,7 @@ void constructCommon(ModelSignature model,
         if (!filename.empty()){
             { // copy current into old and write to current
                 std::ifstream current_state(filename, std::ios::binary);
-                std::ofstream previous_state(filename, std::ios::binary);
+                std::ofstream previous_state(filename_old, std::ios::binary);
                 previous_state << current_state.rdbuf();
             }
             std::ofstream ofs(filename, std::ios::binary);
